@@ -175,7 +175,7 @@ class CodecFamily(Family):
                 lines.append("vlen %d" % v)
                 lines.append("fix64 %d %d" % (v, al))
                 enc = leb(v)
-                tail = bytes(rng.below(256) for _ in range(rng.below(3)))
+                tail = bytes(rng.below(256) for _ in range(rng.pick([0, 1, 2, 2, 7, 8, 9, 12])))   # bytes available beyond the encoding
                 lines.append("vdec64 %s %d" % (hx(enc + tail), rng.below(8)))
                 if v < (1 << 32):
                     lines.append("vdec32 %s %d" % (hx(enc + tail), rng.below(8)))
@@ -748,6 +748,17 @@ class WaFamily(Family):
                 sc = [rng.pick(["f", "f", "e", "e", "p1", "p2", "p5", "p500", "e", "f", "z" if rng.chance(1, 8) else "f", "x" if rng.chance(1, 8) else "e"]) for _ in range(rng.pick([3, 8, 20, 60]))]
                 lines.append("wa.file %s script=%s %s" % (cfgs, ",".join(sc), ents)); stats.bump("wa_random")
             yield ("wa:%d:%d" % (seed, i), lines)
+        if pid == "C20":
+            # more than a megabyte of output (beyond any user-space buffer a writer might keep), short writes and EINTR at
+            # many positions, also tiny ones (a few bytes accepted out of a large request)
+            for j in range(budget(tier, 2, 20, mult)):
+                gen = rng.pick(["300x5000", "150x9000", "40x40000"]); cfgs = "bs=%d ri=16 minbs=1024 gen=%s%s" % (rng.pick([1024, 8192, 8192]), gen, rng.pick(["", "", " pool=2"]))
+                lines = ["wa.gen %s script=-" % cfgs]
+                for _ in range(3):
+                    sc = [rng.pick(["f", "f", "f", "e", "p1", "p100", "p3000", "p70000"]) for _ in range(rng.pick([50, 400, 1500]))]
+                    lines.append("wa.gen %s script=%s" % (cfgs, ",".join(sc)))
+                stats.bump("wa_large_generated_table")
+                yield ("wa:gen:%d:%d" % (seed, j), lines)
     def oracle(self, res):
         fails = []
         base = None
@@ -755,6 +766,15 @@ class WaFamily(Family):
             t = r["req"].split(" ")
             kvs = dict(a.split("=", 1) for a in t[1:] if "=" in a)
             key = " ".join(a for a in t[1:] if not a.startswith("script="))
+            if t[0] == "wa.gen":
+                # megabytes of output (generated in the harness): only benign scripts; the file is reported by its hash
+                if kvs.get("script", "-") == "-":
+                    base = (key, r["real"])
+                    if not r["real"].startswith("ok "):
+                        fails.append(("C20", "fault-free write of a large table did not succeed: " + r["real"][:60], i))
+                elif base and base[0] == key and r["real"].split(" ")[:3] != base[1].split(" ")[:3]:
+                    fails.append(("C20", "large table (%s entries x value bytes) under short writes / EINTR (script %s...): %s, all-full-writes run: %s" % (kvs.get("gen"), kvs["script"][:40], r["real"][:70], base[1][:70]), i))
+                continue
             real = r["real"]
             if real.startswith(("asan", "died")):
                 fails.append(("C20", "writer under a write(2) script died: " + real[:80], i)); continue
@@ -782,6 +802,7 @@ class WaFamily(Family):
                             wb = bytes.fromhex(want_file[5:]) if want_file[5:] != "-" else b""
                         except ValueError:
                             fb = wb = b""
+                        fails.append(("C01", "table written under benign write(2) fragmentation (script %s) is not the table written when every write completes: what was added cannot be read back from it" % kvs["script"][:60], i))
                         if F.walk_layout(fb, 0) is None:
                             fails.append(("C09", "file written under benign write(2) fragmentation (script %s) is not well-formed: frames do not tile the file up to the index / trailer" % kvs["script"][:60], i))
                         if fb[-512:] != wb[-512:] or F.walk_layout(fb, 0) != F.walk_layout(wb, 0):
@@ -817,7 +838,7 @@ TABLE_RULE = ("tables from prefix-tree key generators over the alphabet {00,01,7
 LEN32 = "entries shorter than 4 GiB (finding F11: longer ones are silently truncated by the 32-bit entry header)"
 CODEC = "compression libraries: decompress(compress(x)) = x and compress does not fail (contract; the part of C15 consumed here)"
 
-reg("C01", ["table"], TABLE_RULE, [LEN32, CODEC, "restart interval >= 1", "pooled writer = sequential writer (C13)"], generated=["Constants"])
+reg("C01", ["table", "wa"], TABLE_RULE + "; plus the write-fault family (short writes / EINTR must not change the file)", [LEN32, CODEC, "restart interval >= 1", "pooled writer = sequential writer (C13)"], generated=["Constants"])
 reg("C02", ["table"], TABLE_RULE, [LEN32, CODEC])
 reg("C03", ["table"], TABLE_RULE, [LEN32, CODEC, "buffer lifetime (returned key/value stay intact until the next call on that iterator) is a run-time check under ASan, not a theorem"])
 reg("C09", ["table", "wa"], TABLE_RULE + "; every emitted file is byte-identical to the independent encoder's output on the canonical choices (W_refines_format) and re-validated structurally by python (frames contiguous to the index offset, prefix untouched); the same for files written under scripted short writes / EINTR (family wa)", [LEN32, CODEC], generated=["Constants"])
@@ -1045,12 +1066,12 @@ class CzFamily(Family):
         for algo, lvls in ranges.items():
             lines = ["reset"]
             for lvl in lvls:
-                for kind, n in (("text", 300), ("zero", 70), ("random", 33)) if tier == "quick" else (("text", 300), ("zero", 70), ("random", 33), ("period7", 5000), ("mixed", 1500), ("text", 0)):
+                for kind, n in (("text", 300), ("zero", 70), ("random", 33), ("random", 65535)) if tier == "quick" else (("text", 300), ("zero", 70), ("random", 33), ("random", 65535), ("text", 131070), ("period7", 5000), ("mixed", 1500), ("text", 0)):
                     stats.bump("cz_every_level_algo_%d" % algo)
                     lines += ["@b cz.gen %s %d %d" % (kind, n, seed + n), "@s cz.c %d %d $b" % (algo, lvl), "?s cz.d %d $s" % algo]
             yield ("cz:levels:%d" % algo, lines)
         # structured / random contents at larger sizes, through the model (sizes the line protocol carries comfortably)
-        sizes = [100, 127, 128, 255, 256, 1000, 1023, 1024, 4096, 16383, 16384, 65536, 100000, 262144]
+        sizes = [100, 127, 128, 255, 256, 1000, 1023, 1024, 4096, 16383, 16384, 65535, 65536, 100000, 131070, 262144]
         for i in range(budget(tier, 40, 400, mult)):
             algo = 1 + rng.below(5); kind = rng.pick(CZ_KINDS); lvl = rng.pick(CZ_LEVELS)
             n = rng.pick(sizes) + rng.pick([0, 0, 1, rng.below(100)])
@@ -1353,6 +1374,8 @@ class ResGen:
         for t in range(nt):
             if rng.chance(1, 6):
                 self.emit("res.bad %d" % t); self.tables[t] = "bad"
+            elif rng.chance(1, 8):
+                self.emit("res.bad %d dir" % t); self.tables[t] = "bad"; self.stats.bump("res_table_path_is_a_directory")
             else:
                 codec = rng.pick([0, 0, 1, 2, 2, 3, 4, 5]); vlen = rng.pick([0, 0, 700, 3000]) if codec else 0
                 self.stats.bump("res_table_codec_%d" % codec); self.stats.bump("res_table_redundant_values" if vlen else "res_table_short_values")
